@@ -590,10 +590,12 @@ static void in_reset(void)
     nin = 0;
 }
 
+static unsigned flow_def_extra;      /* attributes added to the current definition (it only gains attributes) */
 static struct uref *make_flow_def(const char *def, uint64_t seed)
 {
     struct uref *fd = uref_alloc_control(E.uref_mgr);
     uref_flow_set_def(fd, def);
+    for (unsigned k = 0; k < flow_def_extra; k++) { char nm[24]; snprintf(nm, sizeof(nm), "x.extra%u", k); uref_attr_set_unsigned(fd, 7, UDICT_TYPE_UNSIGNED, nm); }
 
     if (seed) uref_attr_set_unsigned(fd, seed, UDICT_TYPE_UNSIGNED, "x.defseed");
     if (S.d && S.d->amend_def && !strcmp(def, S.d->def)) S.d->amend_def(fd);
@@ -739,7 +741,11 @@ static void op_set_flow_def(struct st *s)
     int c = vh_below(R, 10);
     bool bad = d->bad_def && c == 0;
     bool same = s->flow_ok && c == 1;
-    uint64_t seed = same ? s->cur_def_seed : 1 + vh_below(R, 3);
+    /* the same definition plus one more attribute (e.g. a latency that becomes known) */
+    bool grow = s->flow_ok && c == 2 && flow_def_extra < 6;
+    if (grow) { flow_def_extra++; VH_COUNT("op.set_flow_def_gaining_an_attribute"); }
+    else if (!same && !bad) flow_def_extra = 0;
+    uint64_t seed = same || grow ? s->cur_def_seed : 1 + vh_below(R, 3);
     /* a foreign definition may carry attributes of its own (same random draws in every twin) */
     bool bad_sized = bad && vh_chance(R, 1, 2);
     uint32_t bad_size = bad ? 1 + vh_below(R, 300) : 0;
@@ -1240,6 +1246,7 @@ static void exec_history(uint64_t seed, bool getters, struct hist_out *out)
     upipe_mgr_release(mgr);
     if (!s->pipe) vh_violation("c04:alloc-failed", "allocation of %s failed", s->d->name);
     src_pump = NULL;
+    flow_def_extra = 0;
     if (s->d->needs_loop) src_pump_open();
     if (s->d->setup) s->d->setup(s);
     /* baseline of the numeric options: the documented defaults as reported right after allocation */
